@@ -120,6 +120,7 @@ def ssIntegrate (c : TrConsts α) (lps : List (LinkPt α)) (s : TrainState α) (
 def ssStep (kc : Consts α) (c : TrConsts α) (g rho : α) (t : Tpc α) (res : ResStrap α) (con : Consist α)
     (s : TrainState α) (vPrev vCur tPrev tCur : α) : Res (Consist α × ResStrap α × TrainState α) := do
   ensure (decide (0 ≤ vCur)) "negative-speed"
+  ensure (decide (0 ≤ vPrev)) "negative-speed-prev"
   let dtI := tCur - tPrev
   let con := consistSetAux con (some true)
   let con ← consistSetCurMax kc con dtI
